@@ -23,7 +23,7 @@ from ..cfg import cfg_of
 from ..model import unparse, stmt_key, Func, AnchorError
 from ..taint import Forward
 from . import sigflow, visitors
-from .common import Ctx, find_api_functions, user_calls, dominated
+from .common import Ctx, find_api_functions, user_calls, dominated, done_nodes
 
 PROP = "C02"
 RESOLVER_MODULES = ("dds._retrieve_objects", "dds.introspect", "dds._introspect_indirect", "dds._eval_ctx", "dds.structures_utils", "dds.fun_args", "dds._lambda_funs")
@@ -279,4 +279,27 @@ def run(ctx: Ctx) -> None:
             else:
                 rep.bad("C02.R4", f.qname, desc, f.loc(uc), w, stmt_key(uc), what="a kept function can run although its result is in the store")
     rep.floor("C02.R4", n4, 2)
+    rep.rule("C02.R6", "a kept result is stored in the store before control returns to the caller (a later failure must not lose completed sub-results)")
+    from .common import effect_sites
+    for f in (top, nested):
+        cfg = cfg_of(f)
+        ucs = user_calls(f)
+        sites = effect_sites(ctx, f, ["store_blob"])
+        nokey = [b for b in cfg.nodes if b.kind == "branch" and b.ast is not None and "key" in unparse(b.ast) and (
+            (b.label == "F" and unparse(b.ast).endswith("is not None")) or (b.label == "T" and unparse(b.ast).endswith("is None")))]
+        for uc in ucs:
+            bad_p = None
+            for d in done_nodes(cfg, uc):
+                p_ = cfg.find_path([d], [cfg.exit], avoid=[x for s_ in sites for x in cfg.nodes_of(s_)] + nokey)
+                if p_ is not None:
+                    bad_p = p_
+            desc = "every normal path from the user call to the return stores the result (unless the call has no key)"
+            if bad_p is None:
+                rep.ok("C02.R6", f.qname, desc, f.loc(uc))
+            else:
+                from .common import witness_path
+                rep.bad("C02.R6", f.qname, desc, f.loc(uc), witness_path(cfg, f, bad_p) + ["if a later node of the evaluation raises, this completed result is lost and its function body runs again on the retry"],
+                        stmt_key(uc) + "store", what="a computed kept result is not stored before returning to the caller")
     visitors.sibling_pruning(ctx, "C02.R5")
+    nb = visitors.body_only(ctx, "C02.R5")
+    rep.floor("C02.R5", nb, 4)
